@@ -326,6 +326,9 @@ def build(spec, plain=False):
             m.tasks[j].input_task_list.append([m.tasks[i], mode])  # as the constructor keyword input_task_list does: the predecessor is not told
         else:
             m.tasks[j].append_input_task(m.tasks[i], task_dependency_mode=mode)
+    for j1, j2 in spec.get("share_input_list", []):
+        # two tasks that wait for the same predecessors were given ONE list object as their input list (constructor keyword input_task_list=shared)
+        m.tasks[j2].input_task_list = m.tasks[j1].input_task_list
     chash = spec.get("chash") or list(range(len(spec.get("components", []))))
     for i, cs in enumerate(spec.get("components", [])):
         c = CompC(name=cs["name"], ID=cs.get("id") or cs["name"], space_size=cs.get("space"))
